@@ -145,6 +145,7 @@ def gen_case(run_seed: int, tier: str, index: int = 0) -> dict:
         "run_seed": run_seed,
         "tensors": specs,
         "graphs": graphs,
+        "graph_parents": (lambda rp: [None] + [rp.randrange(g) for g in range(1, 1 + nsub)])(st.rng("nesting")),
         "ext_files": {
             "other": {"location": "other.data", "dir": "m", "lead": r.choice([0, 5])},
             "outside": {"location": "pre/old.bin", "dir": "m", "lead": 0},
@@ -436,6 +437,7 @@ def shrink_candidates(case: dict, violation: dict):
     if len(base["graphs"]) > 1:
         c = copy.deepcopy(base)
         c["graphs"] = [[i for g in base["graphs"] for i in g]]
+        c.pop("graph_parents", None)
         c["schedule"] = None
         yield c
     for key, val in (("preempt_p", 0.0), ("preempt_points", None), ("spurious", 0.0), ("hide_fileno", False), ("hide_cfr", False), ("chunk", None), ("stickiness", 0.0)):
